@@ -216,6 +216,39 @@ func (w c17Work) run(api *impl.API, clk *c17Clock) (digest string, start, end in
 				fmt.Fprintf(h, "equal=%v", bytes.Equal(out, d.B))
 				z.Close()
 			}
+		case "gzip-headers":
+			// several members with non-ASCII Name/Comment and large Extra fields,
+			// written and read back in default multistream mode
+			var b bytes.Buffer
+			sink := &hookWriter{w: &b, hook: hook}
+			var want []byte
+			for k := 0; k < 3; k++ {
+				z, err := api.NewGzipWriterLevel(sink, accelLevels[r.Intn(4)])
+				if err != nil {
+					note("ctor", nil, err)
+					return
+				}
+				hd := randHeader(r)
+				hd.Name = latin1(r, r.Range(1, 40))
+				hd.Comment = latin1(r, r.Range(1, 40))
+				hd.Extra = r.Bytes(r.Pick(0, 10, 513, 600, 2000))
+				z.SetHeader(hd)
+				d := gen.RandomData(r, 20000)
+				z.Write(d.B)
+				z.Close()
+				want = append(want, d.B...)
+			}
+			note("gzh", b.Bytes(), nil)
+			rd, err := api.NewGzipReader(&hookReader{r: bytes.NewReader(b.Bytes()), hook: hook})
+			if err != nil {
+				note("rdctor", nil, err)
+				return
+			}
+			hh := rd.Header()
+			fmt.Fprintf(h, "hdr=%q|%q|%x", hh.Name, hh.Comment, hh.Extra)
+			out, e := io.ReadAll(rd)
+			note("rt", out, e)
+			fmt.Fprintf(h, "equal=%v", bytes.Equal(out, want))
 		case "decode-malformed":
 			for k := 0; k < 6; k++ {
 				f := synth.Faults[r.Intn(len(synth.Faults))]
@@ -282,7 +315,7 @@ type hookWriter struct {
 func (h *hookWriter) Write(p []byte) (int, error) { h.hook(); return h.w.Write(p) }
 
 var c17Kinds = []string{"compress", "compress-reset", "decode-fixed", "decode-dynamic", "decode-any", "decode-malformed", "gzip-roundtrip", "zlib-roundtrip",
-	"compress-deep-tree", "compress-deep-tree", "decode-close-reuse", "decode-close-reuse", "gzip-close-reuse"}
+	"compress-deep-tree", "compress-deep-tree", "decode-close-reuse", "decode-close-reuse", "gzip-close-reuse", "gzip-headers", "gzip-headers"}
 
 func (c17) Run(c *mon.Ctx, i int) {
 	r := c.R
